@@ -48,7 +48,7 @@ class Exec:
         self.shapes = set()
 
     def live(self):
-        return [i for i, s in enumerate(self.slots) if s is not None]
+        return [i for i, s in enumerate(self.slots) if W.is_url(s)]
 
     def lineage_texts(self, idx):
         """URL strings / authority / host texts that went into building this object."""
